@@ -253,15 +253,19 @@ def Decoder.decode (C : CodecNew) (dec : Decoder) (inp : Bytes) : DecOut :=
     else if mismatch dec1 inp || dec1.shouldTune then { st := retune C dec1 seq, recovered := [] }
     else
       let shardId := seq / u32 dec1.n
+      -- repair of finding D13: when no shard set exists (new decoder, or right after auto-tune)
+      -- the discard horizon starts at this packet (`if len(dec.shardSet) == 0 { newestShardId =
+      -- shardId }`, executed where the shard set is created; an empty map has no entry for `shardId`)
+      let base := if dec1.sets.isEmpty then shardId else dec1.newest
       let set := (lookup shardId dec1.sets).getD { id := shardId, pkts := [] }
-      if set.pkts.any (fun q => seqid q == seq) then { st := dec1, recovered := [] }
+      if set.pkts.any (fun q => seqid q == seq) then { st := { dec1 with newest := base }, recovered := [] }
       else
         let pkts := set.pkts ++ [inp]
         let full := decide (pkts.length ≥ dec1.d)
         let recovered := if full then recover dec1 pkts else []
         let sets := store { id := shardId, pkts := if full then [] else pkts } dec1.sets
         let newest :=
-          if itimediff (shardId * u32 dec1.n) (dec1.newest * u32 dec1.n) > 0 then shardId else dec1.newest
+          if itimediff (shardId * u32 dec1.n) (base * u32 dec1.n) > 0 then shardId else base
         { st := { dec1 with sets := discard dec1.n newest sets, newest := newest }, recovered := recovered }
 
 /-- the check of `kcpInput` on a recovered shard: `r[2:sz]` when `2 ≤ sz ≤ len(r)` -/
